@@ -185,7 +185,11 @@ def main(argv):
         if replay:
             rp = json.load(open(replay))
             files = dict((k, v.encode("latin-1")) for k, v in rp["files"].items())
-            if rp.get("batch"):
+            if rp.get("batch") and rp.get("unit") is None:
+                ref = run_compile(binfo, scratch, files, rp["opts"], rp["srcs"], {})
+                r = run_compile(binfo, scratch, files, rp["opts"], rp["srcs"], rp["perturbation"])
+                d = differs(r, ref)
+            elif rp.get("batch"):
                 ref = run_compile(binfo, scratch, files, rp["opts"], [rp["unit"]], {})
                 r = run_compile(binfo, scratch, files, rp["opts"], rp["srcs"], rp["perturbation"])
                 unit = rp["unit"][:-3]
@@ -313,6 +317,16 @@ def main(argv):
                 dd = [worlds.cls_of(k) for k in sorted(set(bf) | set(s.files)) if bf.get(k) != s.files.get(k)]
                 if dd:
                     diffs.append((pos, sorted(set(dd))))
+            # the batched invocation is itself a function of its input: the same batch under a
+            # perturbed plan must reproduce every output of the unperturbed batch (this is
+            # independent of, and not masked by, the known batch-versus-single finding)
+            rngp = vsim.Rng(seed, "c08-batch-pert", "+".join(progs[i]["name"] for i in grp))
+            q = gen_perturbation(rngp, 200000)
+            q.pop("cwd", None)
+            bp = run_compile(binfo, scratch, files, bopts, [progs[i]["name"] for i in grp], q)
+            dp = differs(bp, b)
+            if dp:
+                diffs.append(("perturbed", dp, q))
             return diffs
         batch_results = vsim.pmap(run_batch, batch_cases) if not budget.over() else []
 
@@ -365,8 +379,12 @@ def main(argv):
             by_key.setdefault(key, []).append(ci)
             vinfo[ci] = (mind, d)
         for bi, diffs in enumerate(batch_results):
-            for pos, dd in diffs:
-                key = "batch.pos%s:%s" % ("1" if pos == 0 else ">=2", "+".join(dd))
+            for dfl in diffs:
+                pos, dd = dfl[0], dfl[1]
+                if pos == "perturbed":
+                    key = "batch-perturbed:%s:%s" % ("+".join(sorted(dfl[2])), "+".join(dd))
+                else:
+                    key = "batch.pos%s:%s" % ("1" if pos == 0 else ">=2", "+".join(dd))
                 by_key.setdefault(key, []).append(("batch", bi, pos))
 
         for key in sorted(by_key):
@@ -381,15 +399,18 @@ def main(argv):
                 grp = batch_cases[bi]
                 # gate: same batch again
                 again = run_batch(grp)
-                if not any(pp == pos for pp, _ in again):
+                if not any(x[0] == pos for x in again):
                     out.nondet.append("batch %d: difference did not reproduce" % bi)
                     continue
                 rp = vsim.write_replay(PID, "seed%d-batch%d" % (seed, bi), {
                     "property": PID, "seed": seed, "batch": True, "opts": bopts,
                     "files": dict((progs[i]["name"], progs[i]["text"].decode("latin-1")) for i in grp),
-                    "srcs": [progs[i]["name"] for i in grp], "unit": progs[grp[pos]]["name"], "position": pos + 1,
-                    "perturbation": {}, "key": key, "source_key": binfo["key"]})
-                out.violations.append({"key": key, "cls": "batch", "detail": "unit %s at position %d of %s" % (progs[grp[pos]]["name"], pos + 1, [progs[i]["name"] for i in grp]), "replay": rp})
+                    "srcs": [progs[i]["name"] for i in grp],
+                    "unit": progs[grp[pos]]["name"] if pos != "perturbed" else None,
+                    "position": pos + 1 if pos != "perturbed" else None,
+                    "perturbation": [x[2] for x in again if x[0] == "perturbed"][0] if pos == "perturbed" else {},
+                    "key": key, "source_key": binfo["key"]})
+                out.violations.append({"key": key, "cls": "batch", "detail": "batch %s: %s" % ([progs[i]["name"] for i in grp], key), "replay": rp})
                 continue
             ids.sort(key=lambda ci: len(progs[cases[ci][0]]["text"]))
             ci = ids[0]
